@@ -381,6 +381,11 @@ func (g *hierDrawer) instance(ds []*model.HDecl, o model.HOpts, out *[]string, l
 func DrawUnits(t *rapid.T, h Hierarchy, tags []string) []model.HUnit {
 	g := &hierDrawer{t: t, format: h.Format, tags: tags}
 	all := append([]string{"X"}, tags...)
+	if h.Format == "csv2" {
+		// "_": a line that consists of the delimiter only (two empty fields) - an input unit like any other: it fits no
+		// header, and it is a row of a rows-based record
+		all = append(all, "_")
+	}
 	var seq []string
 	switch mode := rapid.IntRange(0, 9).Draw(t, "unitsMode"); {
 	case mode == 0:
@@ -430,6 +435,9 @@ func HUnitsOf(tags []string) []model.HUnit {
 	us := make([]model.HUnit, len(tags))
 	for i, tg := range tags {
 		us[i] = model.HUnit{Tag: tg, ID: fmt.Sprintf("u%02d", i)}
+		if tg == "_" {
+			us[i].ID = "" // rendered as a bare delimiter: no tag, no id
+		}
 	}
 	return us
 }
@@ -558,6 +566,9 @@ func (h Hierarchy) UnitText(u model.HUnit) string {
 	case "edi":
 		return u.Tag + "*" + u.ID
 	case "csv2":
+		if u.Tag == "_" {
+			return ","
+		}
 		return u.Tag + "," + u.ID
 	default:
 		return strings.Repeat(".", h.Pad) + u.Tag + u.ID
